@@ -3141,7 +3141,15 @@ impl PeerConnection {
 
     pub async fn recv(&self) -> Option<PeerConnectionEvent> {
         let mut rx = self.inner.event_rx.lock().await;
-        rx.recv().await
+        // The sending half lives in the connection itself, so the channel never
+        // closes on its own: end the stream when the connection is closed (events
+        // queued before that are still handed out first).
+        let mut signaling = self.inner.signaling_state.subscribe();
+        tokio::select! {
+            biased;
+            event = rx.recv() => event,
+            _ = signaling.wait_for(|state| *state == SignalingState::Closed) => rx.try_recv().ok(),
+        }
     }
 
     /// Initialize a T.38 fax endpoint for the Image transceiver.
